@@ -36,4 +36,4 @@ require (
 	golang.org/x/text v0.18.0 // indirect
 )
 
-replace github.com/inbucket/inbucket/v3 => /repo
+replace github.com/inbucket/inbucket/v3 => /tmp/my/repo
